@@ -13,7 +13,7 @@ theorem good_stepInit {s : Server} (hg : Good s) (c cid : Nat) : Good (stepInit 
     · rename_i hcond
       have ho : x.closed = false := by cases h : x.closed <;> simp_all
       have hk : x.kind = .binary := by cases h : x.kind <;> simp_all
-      refine good_update hg hx _ _ s.owner ?_ ?_ ?_ rfl ?_ ?_ ?_
+      refine good_update hg hx _ _ s.owner ?_ ?_ ?_ rfl ?_ ?_ ?_ (fun _ => List.mem_cons_self ..)
       · intro h; simp [ho] at h
       · intro _; exact ⟨hg.openShape c x hx ho, hg.willsOpen c x hx ho⟩
       · intro d h
@@ -104,7 +104,7 @@ theorem safe_stepRequest {s : Server} (hs : Safe s) (c tok : Nat) : Safe (stepRe
     split
     · exact hs
     · cases hk : x.kind <;> simp only []
-      · exact ⟨hs.engRange, hs.execOpen, hs.execText⟩
+      · exact ⟨hs.engRange, hs.execOpen⟩
       · exact safe_set hs hx _ s.clients _ id hk.symm
 
 /-! ### deliver -/
@@ -135,33 +135,37 @@ theorem good_route {s : Server} (hg : Good s) (tok : Nat) : Good (route s tok).1
       | conn d => exact hg
       | default =>
         simp only []
-        cases hl : aget s.clients x.cid with
-        | none => exact hg
-        | some d =>
-          simp only []
-          split
-          · rename_i hop
-            obtain ⟨y, hy, hyo⟩ := isOpen_spec hop
-            have hxc : x.closed = true := closed_of_target hg hx (by rw [ht]; simp)
-            obtain ⟨a, b, cc⟩ := hg.closedShape o x hx hxc
-            have hdo : d ≠ o := by
-              intro e; subst e; rw [hx] at hy; cases hy; rw [hxc] at hyo; cases hyo
-            refine good_update hg hx _ s.clients s.owner ?_ ?_ ?_ rfl (fun _ h => h) ?_ ?_
-            · intro _; exact ⟨a, by simp, cc⟩
-            · intro h; simp only [hxc] at h; cases h
-            · intro d' h
-              simp only [Target.conn.injEq] at h; subst h
-              obtain ⟨z, hz, _, _, _, f, _⟩ := hg.clientsOk x.cid d hl
-              rw [hy] at hz; cases hz
-              exact ⟨hdo, y, hy, hyo, f⟩
-            · intro k d' hk
-              by_cases e : d' = o
-              · subst e
-                obtain ⟨z, hz, zo, _⟩ := hg.clientsOk k d' hk
-                rw [hx] at hz; cases hz; rw [hxc] at zo; cases zo
-              · exact .inr ⟨e, hk⟩
-            · intro _ hk; exact hg.willsClosed o x hx hxc hk
-          · exact hg
+        split
+        · exact hg
+        · rename_i hnz
+          cases hl : aget s.clients x.cid with
+          | none => exact hg
+          | some d =>
+            simp only []
+            split
+            · rename_i hop
+              obtain ⟨y, hy, hyo⟩ := isOpen_spec hop
+              have hxc : x.closed = true := closed_of_target hg hx (by rw [ht]; simp)
+              obtain ⟨a, b, cc⟩ := hg.closedShape o x hx hxc
+              have hdo : d ≠ o := by
+                intro e; subst e; rw [hx] at hy; cases hy; rw [hxc] at hyo; cases hyo
+              refine good_update hg hx _ s.clients s.owner ?_ ?_ ?_ rfl (fun _ h => h) ?_ ?_ ?_
+              · intro _; exact ⟨a, by simp, cc⟩
+              · intro h; simp only [hxc] at h; cases h
+              · intro d' h
+                simp only [Target.conn.injEq] at h; subst h
+                obtain ⟨z, hz, _, _, _, f, _⟩ := hg.clientsOk x.cid d hl
+                rw [hy] at hz; cases hz
+                exact ⟨hdo, hnz, y, hy, hyo, f⟩
+              · intro k d' hk
+                by_cases e : d' = o
+                · subst e
+                  obtain ⟨z, hz, zo, _⟩ := hg.clientsOk k d' hk
+                  rw [hx] at hz; cases hz; rw [hxc] at zo; cases zo
+                · exact .inr ⟨e, hk⟩
+              · intro _; exact hg.willsClosed o x hx hxc
+              · intro hh; exact hg.announcedOwn o x hx hh
+            · exact hg
 
 theorem safe_route {s : Server} (hs : Safe s) (tok : Nat) : Safe (route s tok).1 := by
   unfold route
@@ -178,13 +182,15 @@ theorem safe_route {s : Server} (hs : Safe s) (tok : Nat) : Safe (route s tok).1
       | conn d => exact hs
       | default =>
         simp only []
-        cases hl : aget s.clients x.cid with
-        | none => exact hs
-        | some d =>
-          simp only []
-          split
-          · exact safe_set hs hx _ s.clients s.owner id rfl
-          · exact hs
+        split
+        · exact hs
+        · cases hl : aget s.clients x.cid with
+          | none => exact hs
+          | some d =>
+            simp only []
+            split
+            · exact safe_set hs hx _ s.clients s.owner id rfl
+            · exact hs
 
 /-- a reply is `lost` only at an open text connection -/
 theorem recvN_lost (s : Server) (fuel d tok e : Nat) (h : recvN s fuel d tok = .lost e) :
@@ -231,20 +237,24 @@ theorem route_lost {s : Server} (hg : Good s) (tok e : Nat) (h : (route s tok).2
       | conn d => simp only [ht] at h ⊢; exact recvN_lost s _ _ _ _ h
       | default =>
         simp only [ht] at h ⊢
-        cases hl : aget s.clients x.cid with
-        | none => simp [hl] at h
-        | some d =>
-          simp only [hl] at h ⊢
-          split
-          · rename_i hop
-            simp only [hop, if_true] at h
-            obtain ⟨y, hy, hyo⟩ := recvN_lost s _ _ _ _ h
-            have hxc : x.closed = true := closed_of_target hg hx (by rw [ht]; simp)
-            have : e ≠ o := by intro e'; subst e'; rw [hx] at hy; cases hy; rw [hxc] at hyo; cases hyo
-            exact ⟨y, by dsimp only; rw [get_set_ne this]; exact hy, hyo⟩
-          · rename_i hop
-            simp only [hop] at h
-            exact recvN_lost s _ _ _ _ h
+        split
+        · rename_i hz; simp [hz] at h
+        · rename_i hz
+          simp only [hz, if_false] at h
+          cases hl : aget s.clients x.cid with
+          | none => simp [hl] at h
+          | some d =>
+            simp only [hl] at h ⊢
+            split
+            · rename_i hop
+              simp only [hop, if_true] at h
+              obtain ⟨y, hy, hyo⟩ := recvN_lost s _ _ _ _ h
+              have hxc : x.closed = true := closed_of_target hg hx (by rw [ht]; simp)
+              have : e ≠ o := by intro e'; subst e'; rw [hx] at hy; cases hy; rw [hxc] at hyo; cases hyo
+              exact ⟨y, by dsimp only; rw [get_set_ne this]; exact hy, hyo⟩
+            · rename_i hop
+              simp only [hop] at h
+              exact recvN_lost s _ _ _ _ h
 
 theorem good_settle {s : Server} (hg : Good s) (hs : Safe s) (dst : Dest)
     (hl : ∀ e, dst = .lost e → ∃ y, s.conns[e]? = some y ∧ y.closed = false)
@@ -282,7 +292,6 @@ theorem good_settle {s : Server} (hg : Good s) (hs : Safe s) (dst : Dest)
       cases hn
   | dropped => exact hg
   | filtered => exact hg
-  | parked d => exact hg
   | loop => exact hg
 
 theorem safe_settle {s : Server} (hs : Safe s) (dst : Dest) : Safe (settle s dst).1 := by
@@ -305,7 +314,6 @@ theorem safe_settle {s : Server} (hs : Safe s) (dst : Dest) : Safe (settle s dst
       exact safe_doClose (safe_set hs hd { y with awaiting := 0 } s.clients s.owner id rfl) (get_set_self hd { y with awaiting := 0 })
   | dropped => exact hs
   | filtered => exact hs
-  | parked d => exact hs
   | loop => exact hs
 
 theorem good_stepClose {s : Server} (hg : Good s) (hs : Safe s) (c : Nat) (hn : (stepClose s c).1.dead = none) :
@@ -383,7 +391,6 @@ theorem safe_init : Safe ({} : Server) := by
   constructor
   · intro e he; cases he
   · intro c x h; simp at h
-  · intro c x h; simp at h
 
 theorem good_init : Good ({} : Server) := by
   constructor
@@ -391,6 +398,7 @@ theorem good_init : Good ({} : Server) := by
   · intro c x h; simp at h
   · intro c x d h; simp at h
   · intro k d h; simp [aget] at h
+  · intro c x h; simp at h
   · intro c x h; simp at h
   · intro c x h; simp at h
 
@@ -411,6 +419,110 @@ theorem good_fold (evs : List Event) : ∀ s : Server, (s.dead = none → Good s
 
 theorem good_run (evs : List Event) (hn : (run evs).dead = none) : Good (run evs) :=
   good_fold evs _ (fun _ => good_init) safe_init hn
+
+theorem route_dead (s : Server) (tok : Nat) : (route s tok).1.dead = s.dead := by
+  unfold route
+  cases aget s.owner tok with
+  | none => rfl
+  | some o =>
+    simp only []
+    cases s.conns[o]? with
+    | none => rfl
+    | some x =>
+      simp only []
+      cases x.target with
+      | self => rfl
+      | conn d => rfl
+      | default =>
+        simp only []
+        split
+        · rfl
+        · cases aget s.clients x.cid with
+          | none => rfl
+          | some d => simp only []; split <;> rfl
+
+theorem doClose_dead_none {s : Server} (hg : Good s) {c : Nat} {x : Conn} (hx : s.conns[c]? = some x) :
+    (doClose s c x).1.dead = none := by
+  have ha := doClose_alive hg hx
+  have hdn : (drainK (closeState s c x) c x).2 = none := by
+    cases h2 : (drainK (closeState s c x) c x).2 with
+    | none => rfl
+    | some f => rw [doClose_some _ _ _ f h2] at ha; cases ha
+  rw [doClose_none _ _ _ hdn]
+
+theorem settle_alive {s : Server} (hg : Good s) (hd : s.dead = none) (dst : Dest) : (settle s dst).1.dead = none := by
+  cases dst with
+  | to d =>
+    simp only [settle]
+    cases s.conns[d]? with
+    | none => exact hd
+    | some y => simp only []; split <;> exact hd
+  | lost d =>
+    simp only [settle]
+    cases hy : s.conns[d]? with
+    | none => exact hd
+    | some y =>
+      simp only []
+      have hg' : Good { s with conns := s.conns.set d { y with awaiting := 0 } } :=
+        good_update_minor hg hy _ s.owner rfl rfl rfl rfl rfl rfl (fun _ => ⟨rfl, rfl⟩) (fun ho => hg.willsOpen d y hy ho)
+      exact doClose_dead_none hg' (get_set_self hy { y with awaiting := 0 })
+  | dropped => exact hd
+  | filtered => exact hd
+  | loop => exact hd
+
+/-- the server never dies: `Close` is never fatal in a reachable state -/
+theorem step_alive {s : Server} (hg : Good s) (hd : s.dead = none) (e : Event) : (step s e).1.dead = none := by
+  unfold step
+  simp only [hd]
+  cases e with
+  | «open» k => dsimp only
+  | init c cid =>
+    dsimp only; unfold stepInit
+    cases s.conns[c]? with
+    | none => exact hd
+    | some x => simp only []; split <;> exact hd
+  | will c tok imm =>
+    dsimp only; unfold stepWill
+    cases s.conns[c]? with
+    | none => exact hd
+    | some x => simp only []; split <;> exact hd
+  | request c tok =>
+    dsimp only; unfold stepRequest
+    cases s.conns[c]? with
+    | none => exact hd
+    | some x =>
+      simp only []
+      split
+      · exact hd
+      · cases x.kind <;> exact hd
+  | deliver tok =>
+    dsimp only
+    show (settle (route s tok).1 (route s tok).2).1.dead = none
+    exact settle_alive (good_route hg tok) (by rw [route_dead]; exact hd) _
+  | close c k =>
+    dsimp only; unfold stepClose
+    cases hx : s.conns[c]? with
+    | none => exact hd
+    | some x =>
+      simp only []
+      split
+      · exact hd
+      · split
+        · exact hd
+        · exact doClose_dead_none hg hx
+
+theorem alive_fold (evs : List Event) : ∀ s : Server, Good s → Safe s → s.dead = none →
+    (evs.foldl (fun s e => (step s e).1) s).dead = none := by
+  induction evs with
+  | nil => intro s _ _ hd; exact hd
+  | cons e es ih =>
+    intro s hg hs hd
+    have h1 := step_alive hg hd e
+    exact ih _ (good_step (fun _ => hg) hs e h1) (safe_step hs e) h1
+
+theorem run_alive (evs : List Event) : (run evs).dead = none := alive_fold evs _ good_init safe_init rfl
+
+theorem good_run' (evs : List Event) : Good (run evs) := good_run evs (run_alive evs)
 
 /-- once dead the state is frozen -/
 theorem step_dead {s : Server} (e : Event) (f : Fatal) (h : s.dead = some f) : (step s e).1 = s := by
